@@ -42,7 +42,11 @@ Definition call_nlines (s : wstate) (c : call) : nat :=
   match c with
   | WritePreamble (WStr t) enc _ le _ => text_nlines s t enc le le_out
   | WriteMeta (WDict j) enc _ =>
-      match json_dump j with Ok d => text_nlines s (ascii_text d) enc WNone le_out | Err _ => 0 end
+      match json_dump j with
+      | Ok d => if meta_enc_b s c then text_nlines s (ascii_text d) enc WNone le_out
+                else nlines_of (fst (call_prepared s c)) le_out None   (* no encoding in force: the JSON bytes *)
+      | Err _ => 0
+      end
   | WriteDiff _ _ enc _ => nlines_of (fst (call_prepared s c)) le_out (enc_bytes enc)
   | _ => 0
   end.
@@ -58,6 +62,17 @@ Definition oracle_ok_call (orc : oracle) (c : call) : Prop :=
         assoc_get beq (oracle_key_text (ascii_text d ++ [10%N])) orc = Some (LoadsOk j)
   | _ => True
   end.
+
+(* ... and, where write_meta hands the JSON on as BYTES (no encoding in force, [meta_enc_b] false), json.loads is
+   asked about bytes: loads (dumps j ++ b"\n") = j *)
+Definition meta_bytes_oracle (orc : oracle) (c : call) : Prop :=
+  match c with
+  | WriteMeta (WDict j) _ _ =>
+      forall d, json_dump j = Ok d -> assoc_get beq (oracle_key_bytes (d ++ [x0a])) orc = Some (LoadsOk j)
+  | _ => True
+  end.
+Definition meta_oracle_at (orc : oracle) (s : wstate) (c : call) : Prop :=
+  meta_enc_b s c = true \/ meta_bytes_oracle orc c.
 
 Definition aligned_canon (canon : bytes) : Prop := In canon [B "ascii"; B "iso8859-1"; B "utf-8"; B "utf-8-sig"].
 Definition aligned_b (eb : bytes) : bool :=
@@ -402,7 +417,8 @@ Proof.
   apply app_inj_tail in Es. destruct Es as [_ Es]. discriminate Es.
 Qed.
 
-Lemma sim_step_meta : forall orc chunk s s' st valid encs prev kv enc fmt,
+(* 7a. an encoding is in force: the JSON text goes through the text path *)
+Lemma sim_step_meta_text : forall orc chunk s s' st valid encs prev kv enc fmt,
   let c := WriteMeta (WDict (JObj kv)) enc fmt in
   Sim s st valid encs prev -> enc_ok enc -> meta_enc_b s c = true -> meta_guess_b s c = true -> oracle_ok_call orc c ->
   do_call c s = (s', Ok tt) -> 0 < chunk ->
@@ -421,6 +437,8 @@ Proof.
   { rewrite Hfj. assert (Hin : In (B "json") choice_values) by (apply choice_sub_meta_formats; left; reflexivity).
     destruct (choice_exact _ Hin). auto. }
   destruct Hfg as [Hfg Hfx].
+  assert (Hmc : meta_content s enc d = CText (ascii_text d)).
+  { unfold meta_content. unfold c in Hmenc. cbn [meta_enc_b] in Hmenc. rewrite Hmenc. reflexivity. }
   set (t := ascii_text d) in *.
   destruct (sim_content_header chunk s st valid encs prev c s' (B "meta") (CText t) WNone enc WNone false true (B "format") (meta_fmt fmt)
               HS Hcall Htarget Hncs Hname Henc GV_none I (key_spec "format" eq_refl) Hfg Hfx Hchunk Hsize)
@@ -440,7 +458,7 @@ Proof.
   { unfold meta_guess_b, c in Hguess. rewrite Heff in Hguess. cbn [enc_bytes] in Hguess.
     rewrite map_n_byte_ascii_text in Hguess. apply orb_true_iff in Hguess. destruct Hguess as [Ha|Hg].
     - left. unfold aligned_b in Ha. rewrite Hlk in Ha. apply (HeaderFacts.mem_In byte_eqb HeaderFacts.byte_eqb_spec). exact Ha.
-    - right. rewrite Hnl in Hg. cbn [call_prepared] in Hg. rewrite Hdump in Hg. fold t in Hg. rewrite Hprep in Hg. cbn [fst] in Hg.
+    - right. rewrite Hnl in Hg. cbn [call_prepared] in Hg. rewrite Hdump, Hmc in Hg. rewrite Hprep in Hg. cbn [fst] in Hg.
       destruct (guess_line_endings_bytes body (Some eb)) as [[le2 nlb2]|] eqn:Eg; [|discriminate Hg].
       apply TextFacts.beq_eq in Hg. subst nlb2. exists le2. exact Eg. }
   exists ((("#"%byte :: r) ++ [x0a]) ++ body). split; [exact Hout|].
@@ -464,13 +482,163 @@ Proof.
   cbn [oracle_ok_call c] in Horc. specialize (Horc d Hdump). fold t in Horc. rewrite Horc.
   rewrite (yield_unfold _ _ _ _ _ _ _ _ _ _ Htab).
   exists st', nxt, encs, prev. split; [|split; [|split]].
-  - unfold expected_record_of, expected_record. cbn [call_prepared c]. rewrite Hdump. fold t. rewrite Hprep. cbn [fst snd].
+  - unfold expected_record_of, expected_record. cbn [call_prepared c]. rewrite Hdump, Hmc. rewrite Hprep. cbn [fst snd].
     unfold c. cbn [call_dots call_opts call_payload call_name]. fold c. rewrite Htarget. reflexivity.
   - apply Hsim'. rewrite Hfnl'. reflexivity.
   - exact Hrem'.
   - rewrite Hline'. unfold st1 at 1. cbn [after_line st_linenum].
-    unfold call_nlines. cbn [call_prepared c]. rewrite Hdump. fold t. rewrite Hprep. cbn [fst snd].
+    unfold call_nlines. cbn [call_prepared c]. rewrite Hdump, Hmc. rewrite Hprep. cbn [fst snd]. fold c. rewrite Hmenc. fold t.
     unfold text_nlines. rewrite Heff. cbn [enc_bytes resolve_le]. rewrite map_n_byte_ascii_text.
     rewrite Hr0 at 1. rewrite guess_json_text. cbn [snd].
     rewrite Hy. unfold nlines_of. rewrite map_n_byte_ascii_text, Hnl, Hsplit. lia.
+Qed.
+
+(* 7b. no encoding in force: the pure-ASCII JSON is written as bytes under a header without encoding, the reader
+   returns bytes (PBytes) and json.loads is asked about bytes *)
+Lemma is_nil_false_ne : forall {A} (l : list A), l <> [] -> is_nil l = false.
+Proof. intros A l H. destruct l; [congruence|reflexivity]. Qed.
+
+Lemma meta_bytes_rt : forall (s : wstate) (d r : bytes),
+  cur_encoding s = Ok WNone -> d = x7b :: x0a :: r ->
+  exists body lines,
+    body = add_newline [x0a] d /\
+    split_lines body [x0a] true = Ok lines /\
+    prepare_content s (CBytes d) WNone WNone WNone true = Ok (body, WStr (ascii_text GenText.le_unix)) /\
+    forall st rest, remaining (st_stream st) = body ++ rest -> (Z.of_nat (length body) <= sys_maxsize)%Z ->
+      exists st',
+        read_content st (Z.of_nat (length body)) None None None false = COk (PBytes body) st' /\
+        remaining (st_stream st') = rest /\
+        st_linenum st' = (st_linenum st + Z.of_nat (length lines))%Z /\
+        st_fnl st' = st_fnl st.
+Proof.
+  intros s d r Hcur Hd.
+  assert (Hdne : d <> []) by (rewrite Hd; discriminate).
+  destruct (diff_round_trip_ok (B "ascii") codec_ok_sp_ascii s d WNone WNone Hdne la_none (dk_none _ eq_refl))
+    as (body & le & nlb & lines & _ & _ & Hg & _ & Hbody & Hsplit & Hprep & _).
+  specialize (Hg eq_refl). rewrite Hd in Hg at 1. rewrite guess_json_bytes in Hg. injection Hg as <- <-.
+  exists body, lines. split; [exact Hbody|]. split; [exact Hsplit|]. split.
+  - rewrite (Encodings.prepare_content_encoding s s (CBytes d) WNone WNone WNone true WNone Hcur). exact Hprep.
+  - intros st rest Hrem Hmax.
+    assert (Hb2 : exists r', body = x7b :: x0a :: r').
+    { rewrite Hbody, Hd. destruct (bends [x0a] (x7b :: x0a :: r)); eexists; reflexivity. }
+    destruct Hb2 as (r' & Hb2).
+    assert (Hbne : body <> []) by (rewrite Hb2; discriminate).
+    assert (Hends : bends [x0a] body = true).
+    { rewrite Hbody. destruct (bends [x0a] d) eqn:E; [exact E|]. apply TextFacts.bends_spec. exists d. reflexivity. }
+    destruct (sread_exact (st_stream st) body rest Hrem) as [Hs1 Hs2].
+    unfold read_content. rewrite Hrem, (read_size body rest Hmax), Hs1.
+    rewrite (is_nil_false_ne body Hbne). cbn [pv_truthy].
+    assert (Hguess : guess_line_endings_bytes body None = Ok (GenText.le_unix, [x0a])).
+    { change (guess_line_endings_bytes body None) with (guess_line_endings_bytes body (Some (B "ascii"))).
+      rewrite Hb2. apply guess_json_bytes. }
+    rewrite Hguess. cbn [bind snd].
+    rewrite Hsplit, Hends. cbn [negb].
+    eexists. split; [reflexivity|]. cbn [st_stream st_linenum st_fnl]. auto.
+Qed.
+
+Lemma json_obj_bytes : forall kv d, kv <> [] -> json_dump (JObj kv) = Ok d ->
+  (exists r, d = x7b :: x0a :: r) /\ (exists q, d = q ++ [x7d]).
+Proof.
+  intros kv d Hkv Ed. unfold json_dump in Ed. rewrite dump_obj in Ed by exact Hkv.
+  destruct (dump_members 0 kv); [|discriminate Ed]. apply Ok_inj in Ed. subst d. split.
+  - eexists. reflexivity.
+  - eexists. rewrite !app_assoc. reflexivity.
+Qed.
+
+Lemma add_newline_json : forall d q, d = q ++ [x7d] -> add_newline [x0a] d = d ++ [x0a].
+Proof.
+  intros d q E. unfold add_newline. destruct (bends [x0a] d) eqn:Es; [|reflexivity]. exfalso.
+  apply TextFacts.bends_spec in Es. destruct Es as [q' Es]. rewrite E in Es.
+  apply app_inj_tail in Es. destruct Es as [_ Es]. discriminate Es.
+Qed.
+
+Lemma enc_ok_falsy : forall v, enc_ok v -> wv_truthy v = false -> v = WNone.
+Proof.
+  intros v H Hf. rewrite (enc_ok_truthy v H) in Hf. destruct H as [->|(eb & ? & ? & -> & ?)]; [reflexivity|discriminate Hf].
+Qed.
+
+Lemma sim_step_meta_bytes : forall orc chunk s s' st valid encs prev kv enc fmt,
+  let c := WriteMeta (WDict (JObj kv)) enc fmt in
+  Sim s st valid encs prev -> enc_ok enc -> meta_enc_b s c = false -> meta_bytes_oracle orc c ->
+  do_call c s = (s', Ok tt) -> 0 < chunk ->
+  (Z.of_nat (length (w_out s')) <= sys_maxsize)%Z ->
+  step_ok orc chunk s st valid encs prev c s'.
+Proof.
+  intros orc chunk s s' st valid encs prev kv enc fmt c HS Henc Hmenc Horc Hcall Hchunk Hsize.
+  pose proof (sim_stack_ne _ _ _ _ _ HS) as Hne.
+  destruct (meta_call_inv_gen _ _ _ _ _ Hcall) as (j & d & he & Ej & Htruthy & Hfmt & Hdump & Hhe & Hncs).
+  injection Ej as <-.
+  pose proof (has_enc_meta_enc s (WDict (JObj kv)) enc fmt he Hne Hhe) as Ehe. fold c in Ehe. rewrite Hmenc in Ehe. subst he.
+  assert (Hkv : kv <> []) by (intros ->; discriminate Htruthy).
+  pose proof (target_content s c I) as Htarget. cbn [call_name c] in Htarget.
+  assert (Hname : In (B "meta") WriterFacts.content_names) by (cbn; auto).
+  assert (Hfj : meta_fmt fmt = WStr (ascii_text (B "json"))).
+  { apply in_strset_true in Hfmt. destruct Hfmt as (x & Hx & ->). destruct Hx as [<-|[]]. reflexivity. }
+  assert (Hfg : good_value (meta_fmt fmt) /\ exact_value (meta_fmt fmt)).
+  { rewrite Hfj. assert (Hin : In (B "json") choice_values) by (apply choice_sub_meta_formats; left; reflexivity).
+    destruct (choice_exact _ Hin). auto. }
+  destruct Hfg as [Hfg Hfx].
+  (* no encoding in force: the argument and the innermost container's encoding are None *)
+  destruct (sim_top _ _ _ _ _ HS) as (tw & p' & e0 & Hst & Hencs & Htw & Hcur).
+  assert (Hmenc' : wv_truthy (Encodings.w_content_encoding enc true (hd WNone (w_stack s))) = false) by exact Hmenc.
+  assert (Hnone : enc = WNone /\ tw = WNone).
+  { rewrite Hst in Hmenc'. cbn [hd] in Hmenc'. unfold Encodings.w_content_encoding in Hmenc'.
+    destruct (wv_truthy enc) eqn:E; cbn [negb andb] in Hmenc'; [congruence|].
+    split; apply enc_ok_falsy; assumption. }
+  destruct Hnone as [-> ->].
+  assert (Hmc : meta_content s WNone d = CBytes d) by (unfold meta_content; rewrite Hmenc'; reflexivity).
+  cbv iota in Hncs.
+  destruct (sim_content_header chunk s st valid encs prev c s' (B "meta") (CBytes d) WNone WNone WNone false true (B "format") (meta_fmt fmt)
+              HS Hcall Htarget Hncs Hname (or_introl eq_refl) GV_none I (key_spec "format" eq_refl) Hfg Hfx Hchunk Hsize)
+    as (body & le_out & r & nxt & Hprep & Hout & Hbody & Htab & Hsim' & Hget & Hread).
+  destruct (json_obj_bytes kv d Hkv Hdump) as [(r0 & Hr0) (q & Hq)].
+  destruct (meta_bytes_rt s d r0 Hcur Hr0) as (body2 & lines & Hb2 & Hsplit & Hprep2 & Hrc).
+  rewrite Hprep in Hprep2. apply Ok_pair_inj in Hprep2. destruct Hprep2 as [<- ->].
+  destruct (sim_content_id _ _ _ _ _ _ _ _ HS Hcall Htarget Hname) as (Hic & _ & Him & _).
+  destruct (Him eq_refl) as [Hnp Hm].
+  exists ((("#"%byte :: r) ++ [x0a]) ++ body). split; [exact Hout|].
+  intros rest Hrem. destruct (Hread rest Hrem) as [Hh Hrem1].
+  set (st1 := after_line st (length ("#"%byte :: r))) in *.
+  destruct (Hrc st1 rest Hrem1 Hbody) as (st' & Hrcok & Hrem' & Hline' & Hfnl').
+  set (opts := expected_opts (content_opts body (WStr (ascii_text GenText.le_unix)) WNone WNone false [(B "format", meta_fmt fmt)])) in *.
+  assert (Hlen : opt_get "length" opts = Some (VInt (Z.of_nat (length body)))).
+  { unfold opt_get, opts. rewrite Hget, content_opts_get. cbeq. reflexivity. }
+  assert (Hoe : opt_get "encoding" opts = None).
+  { unfold opt_get, opts. rewrite Hget, content_opts_get. cbeq. reflexivity. }
+  assert (Hol : opt_get "line_endings" opts = None).
+  { unfold opt_get, opts. rewrite Hget, content_opts_get. cbeq. reflexivity. }
+  assert (Hof : opt_get "format" opts = Some (VStr (B "json"))).
+  { unfold opt_get, opts. rewrite Hget, content_opts_get. cbeq. rewrite Hfj.
+    apply choice_values_spec. apply choice_sub_meta_formats. left. reflexivity. }
+  assert (Htop : top encs = Some (rd_enc WNone)) by (rewrite Hencs; reflexivity).
+  pose proof (Encodings.reader_meta_encoding orc chunk st valid encs prev _ _ _ _ _ _ (rd_enc WNone) _ Hh Hic Hnp Hm Htop Hlen) as Hstep.
+  rewrite Hstep; [|apply Z.ltb_ge; lia | rewrite Hof; vm_compute; reflexivity].
+  rewrite Hoe, Hol. cbn [rd_enc Encodings.content_encoding]. rewrite Hrcok. cbv zeta.
+  rewrite Hb2, (add_newline_json d q Hq).
+  cbn [meta_bytes_oracle c] in Horc. specialize (Horc d Hdump). rewrite Horc.
+  rewrite (yield_unfold _ _ _ _ _ _ _ _ _ _ Htab).
+  exists st', nxt, encs, prev. split; [|split; [|split]].
+  - unfold expected_record_of, expected_record. cbn [call_prepared c]. rewrite Hdump, Hmc, Hprep. cbn [fst snd].
+    unfold c. cbn [call_dots call_opts call_payload call_name]. fold c. rewrite Htarget. reflexivity.
+  - apply Hsim'. rewrite Hfnl'. reflexivity.
+  - exact Hrem'.
+  - rewrite Hline'. unfold st1 at 1. cbn [after_line st_linenum].
+    unfold call_nlines. cbn [call_prepared c]. rewrite Hdump, Hmc, Hprep. cbn [fst snd]. fold c. rewrite Hmenc.
+    unfold nlines_of. rewrite map_n_byte_ascii_text.
+    replace (get_newline_for_type GenText.le_unix None) with (Ok [x0a] : res bytes) by (vm_compute; reflexivity).
+    rewrite Hsplit. lia.
+Qed.
+
+(* 7. write_meta, both cases: [meta_oracle_at orc s c] = an encoding is in force, or the oracle answers for the bytes *)
+Lemma sim_step_meta : forall orc chunk s s' st valid encs prev kv enc fmt,
+  let c := WriteMeta (WDict (JObj kv)) enc fmt in
+  Sim s st valid encs prev -> enc_ok enc -> meta_oracle_at orc s c -> meta_guess_b s c = true -> oracle_ok_call orc c ->
+  do_call c s = (s', Ok tt) -> 0 < chunk ->
+  (Z.of_nat (length (w_out s')) <= sys_maxsize)%Z ->
+  step_ok orc chunk s st valid encs prev c s'.
+Proof.
+  intros orc chunk s s' st valid encs prev kv enc fmt c HS Henc Hmo Hguess Horc Hcall Hchunk Hsize.
+  destruct (meta_enc_b s c) eqn:Eb.
+  - eapply sim_step_meta_text; eauto.
+  - destruct Hmo as [Hmo|Hmo]; [congruence|]. eapply sim_step_meta_bytes; eauto.
 Qed.
